@@ -102,4 +102,9 @@ theorem concurrent_appenders_can_break : ¬ ConcW.no_runtime_panic_stmt ∧ ¬ C
     readers of `Model.Conc` follow and `refcount_exact` / `no_double_close` / the reclaim theorems rest on -/
 theorem every_acquire_is_released_once : Generated.everyAcquireHasDeferredRelease = true := by decide
 
+/-- the reference count of a state is touched by `acquire` and `release` only (read from the source): every decrement goes
+    through `release`, which runs the finalizer at zero — the step `Model.Conc` takes -/
+theorem refcount_only_through_acquire_release :
+    Generated.refCountTouchedBy = ["state.acquire", "state.release"] := by decide
+
 end RaftWal.C14
